@@ -58,6 +58,12 @@ func (s *state) Persistent() types.PersistentState {
 }
 
 func (s *state) getLog(index uint64) (*types.PooledBuffer, error) {
+	// Entries below the first index have been truncated even if the segment
+	// that held them (possibly the tail) still has them on disk.
+	if index < s.firstIndex() {
+		return nil, ErrNotFound
+	}
+
 	// Check the tail writer first
 	if s.tail != nil {
 		raw, err := s.tail.GetLog(index)
